@@ -107,6 +107,26 @@ pub trait Engine: Sync + Send {
     fn selftest(&self) -> Result<u64, String> {
         Ok(0)
     }
+    /// library execution only (no oracle): the labelled outputs of a case; used by the profile pair (C11)
+    fn exec_raw(&self, _prop: &str, _c: &Case) -> crate::out::Outs {
+        Vec::new()
+    }
+    /// how an output may differ between the two build profiles (C11)
+    fn pair_class(&self, _prop: &str, _c: &Case, label: &str, rel: &[(String, crate::out::Out)]) -> crate::pair::PairClass {
+        crate::pair::class_by_label(label, rel)
+    }
+    /// known-finding predicate for a profile difference (C11)
+    fn pair_known(&self, _kf: &Kf, _prop: &str, _c: &Case, _label: &str, _chk_out: &crate::out::Out, _rel_out: &crate::out::Out) -> Option<&'static str> {
+        None
+    }
+    /// generators (property ids) this engine contributes to the profile pair
+    fn pair_gens(&self) -> Vec<&'static str> {
+        self.props()
+    }
+    /// Some(generator) when this engine is a profile-pair wrapper
+    fn gen_tag(&self) -> Option<String> {
+        None
+    }
 }
 
 pub fn default_case_json<E: Engine + ?Sized>(e: &E, prop: &str, c: &Case) -> Value {
@@ -413,6 +433,13 @@ pub fn run<E: Engine + ?Sized>(e: &E, cfg: &RunCfg) -> RunResult {
         if !applies || ent.get("engine").and_then(|x| x.as_str()) != Some(e.name()) {
             continue;
         }
+        if let Some(g) = ent.get("gen").and_then(|x| x.as_str()) {
+            if e.gen_tag().as_deref() != Some(g) {
+                continue;
+            }
+        } else if e.gen_tag().is_some() {
+            continue;
+        }
         let pred = ent.get("predicate").and_then(|x| x.as_str()).unwrap_or("");
         let what = ent.get("what").and_then(|x| x.as_str()).unwrap_or("");
         let mut reproduced = false;
@@ -583,6 +610,9 @@ pub fn main_with<E: Engine>(e: &E, chk: bool) -> i32 {
             return 2;
         }
     }
+    if args.iter().any(|a| a == "--serve") {
+        return crate::pair::serve(e);
+    }
     // self-tests of the oracle code
     let st = crate::selftest().and_then(|n| e.selftest().map(|m| n + m));
     let selftests = match st {
@@ -641,6 +671,22 @@ pub fn main_with<E: Engine>(e: &E, chk: bool) -> i32 {
             return 2;
         }
     };
+    if prop == "C11" {
+        // profile pair: this (checking-profile) process is the parent
+        if !chk {
+            // the non-checking binary has nothing to do for C11: it serves as the child
+            return 0;
+        }
+        let child = match get("--child") {
+            Some(c) => c,
+            None => {
+                eprintln!("--prop C11 needs --child <binary built with the other profile>");
+                return 2;
+            }
+        };
+        crate::pair::set_child(&child);
+        return run_pair_all(e, &args, selftests);
+    }
     if !e.props().contains(&prop.as_str()) {
         eprintln!("engine {} does not serve {}", e.name(), prop);
         return 2;
@@ -702,6 +748,71 @@ pub fn main_with<E: Engine>(e: &E, chk: bool) -> i32 {
         return 2;
     }
     0
+}
+
+/// C11: run the profile pair over every generator the engine contributes; one partial evidence file
+fn run_pair_all<E: Engine>(e: &E, args: &[String], selftests: u64) -> i32 {
+    let get = |k: &str| -> Option<String> { args.iter().position(|a| a == k).and_then(|i| args.get(i + 1).cloned()) };
+    let tier = match get("--tier").as_deref() {
+        Some("thorough") => Tier::Thorough,
+        _ => Tier::Quick,
+    };
+    let seed: u64 = get("--seed").and_then(|s| s.parse().ok()).unwrap_or(0);
+    let out = get("--out").unwrap_or_else(|| "/verif/harness/scratch/C11.json".into());
+    let only = get("--gen");
+    let mut partials: Vec<Value> = Vec::new();
+    let mut rc = 0;
+    for g in e.pair_gens() {
+        if let Some(o) = &only {
+            if o != g {
+                continue;
+            }
+        }
+        let pe = crate::pair::PairEngine { inner: e, gen: g.to_string() };
+        let cfg = RunCfg {
+            prop: "C11".into(),
+            tier,
+            seed: splitmix(seed ^ str_hash(g)),
+            chk: true,
+            threads: get("--threads").and_then(|s| s.parse().ok()).unwrap_or(16),
+            replay_dir: get("--replay-dir").unwrap_or_else(|| "/verif/replays/C11".into()),
+            out: out.clone(),
+            kf_path: get("--kf").unwrap_or_else(|| "/verif/known_findings.json".into()),
+            scale: get("--scale").and_then(|s| s.parse().ok()).unwrap_or(1.0),
+        };
+        let r = run(&pe, &cfg);
+        for l in &r.known_lines {
+            println!("{}", l);
+        }
+        let mut paths = Vec::new();
+        for v in &r.violations {
+            let p = write_replay(&pe, &cfg, v);
+            println!("VIOLATION property=C11 replay={}", p);
+            println!("  generator={} origin={} case={}", g, v.origin, pe.case_json("C11", &v.case));
+            for f in &v.fails {
+                println!("  MISMATCH output={} got={} want={}", f.label, f.got, f.want);
+            }
+            paths.push(p);
+        }
+        println!(
+            "{} C11 {} generator={} pairs={} distinct_nontrivial={} known_hits={} violations={} wall={:.1}s",
+            e.name(), tier.name(), g, r.acc.evaluations, r.acc.distinct.len(), r.acc.known.values().sum::<u64>(), r.violations.len(), r.wall_s
+        );
+        if !r.violations.is_empty() {
+            rc = 1;
+        }
+        let mut pj = partial_json(&pe, &cfg, &r, &paths);
+        let o = pj.as_object_mut().unwrap();
+        o.insert("oracle_selftests".into(), json!(selftests));
+        o.insert("pairs_compared".into(), json!(r.acc.evaluations));
+        o.insert("generator".into(), json!(g));
+        partials.push(pj);
+    }
+    if let Some(parent) = std::path::Path::new(&out).parent() {
+        let _ = std::fs::create_dir_all(parent);
+    }
+    let _ = std::fs::write(&out, serde_json::to_string_pretty(&json!({"pair_partials": partials})).unwrap());
+    rc
 }
 
 /// Strategy helper: monotone index mapping (shrinks toward index 0).
